@@ -332,7 +332,104 @@ def run_vint(res, c, signed):
             equiv(res, name, oa, ob, data, case, ['vt', 'iv', 'p'])
 
 
+
+# --------------------------------------------------------------------------- validate_utf8_fast
+
+def utf8_valid(b):
+    """z3 predicate: the byte list b is well-formed UTF-8 (RFC 3629 / Go unicode/utf8.Valid)"""
+    n = len(b)
+    memo = {}
+
+    def rng(x, lo, hi):
+        return z3.And(z3.UGE(x, BV(lo, 8)), z3.ULE(x, BV(hi, 8)))
+
+    def cont(i):
+        return rng(b[i], 0x80, 0xBF) if i < n else z3.BoolVal(False)
+
+    def v(i):
+        if i >= n:
+            return z3.BoolVal(i == n)
+        if i in memo:
+            return memo[i]
+        c = b[i]
+        alts = [z3.And(z3.ULT(c, BV(0x80, 8)), v(i + 1))]
+        if i + 1 < n:
+            alts.append(z3.And(rng(c, 0xC2, 0xDF), cont(i + 1), v(i + 2)))
+        if i + 2 < n:
+            alts.append(z3.And(c == BV(0xE0, 8), rng(b[i + 1], 0xA0, 0xBF), cont(i + 2), v(i + 3)))
+            alts.append(z3.And(z3.Or(rng(c, 0xE1, 0xEC), rng(c, 0xEE, 0xEF)), cont(i + 1), cont(i + 2), v(i + 3)))
+            alts.append(z3.And(c == BV(0xED, 8), rng(b[i + 1], 0x80, 0x9F), cont(i + 2), v(i + 3)))
+        if i + 3 < n:
+            alts.append(z3.And(c == BV(0xF0, 8), rng(b[i + 1], 0x90, 0xBF), cont(i + 2), cont(i + 3), v(i + 4)))
+            alts.append(z3.And(rng(c, 0xF1, 0xF3), cont(i + 1), cont(i + 2), cont(i + 3), v(i + 4)))
+            alts.append(z3.And(c == BV(0xF4, 8), rng(b[i + 1], 0x80, 0x8F), cont(i + 2), cont(i + 3), v(i + 4)))
+        memo[i] = z3.Or(*alts)
+        return memo[i]
+
+    return v(0)
+
+
+def cases_utf8(res, tier):
+    out = []
+    small = range(1, 4) if tier == 'quick' else range(1, 5)
+    for n in small:
+        out.append((n, 0, n, 'a'))
+    big = [32, 64, 65, 128] if tier == 'quick' else [31, 32, 33, 63, 64, 65, 96, 127, 128, 129, 192]
+    for n in big:
+        wins = set([0, n - 2, n - 1] + [x for x in (30, 31, 62, 63, 64, 126, 127) if x < n])
+        for w0 in sorted(wins):
+            if w0 < 0:
+                continue
+            out.append((n, w0, min(2, n - w0), 'a'))
+        # non-ASCII filler (two-byte characters): the window is aligned to a character boundary
+        for w0 in sorted(set([0, n - 2 - n % 2] + [x for x in (30, 62, 126) if x + 2 <= n])):
+            if w0 >= 0 and n % 2 == 0:
+                out.append((n, w0, 2, 'e'))
+    res.bounds = ('validate_utf8_fast(&s): every text of %s bytes; texts of %s bytes made of a filler (ASCII a, or the two-byte character U+00E9) '
+                  'with a window of 2 free bytes at the start, the end and across the 32/64/128-byte block boundaries; buffer ending at a page end'
+                  % (list(small), big))
+    return [c + (pe,) for c in out for pe in ((True, False) if c[0] <= 4 else (True,))]
+
+
+def run_utf8(res, c):
+    name = 'validate_utf8_fast'
+    n, w0, wl, filler, page_end = c
+    syms = [z3.BitVec('b%d' % i, 8) for i in range(n)]
+    data = []
+    for i in range(n):
+        if w0 <= i < w0 + wl:
+            data.append(syms[i])
+        elif filler == 'a':
+            data.append(BV(0x61, 8))
+        else:
+            data.append(BV(0xC3 if i % 2 == 0 else 0xA9, 8))
+    case = {'n': n, 'p': w0, 'page_end': page_end, 'window': wl, 'filler': filler}
+    res.cases += 1
+    SRC = 0x20000000
+
+    def mk(m):
+        r = in_region(n, page_end, data)
+        src = Region('src', SRC, qword(r.base) + qword(n))
+        return new_state(m, [r, src], [SRC])
+
+    def outputs(st, m):
+        return {'ret': st.regs['rax']}
+
+    valid = utf8_valid(data)
+
+    def mismatch(o):
+        return (o['ret'] == BV(0, 64)) != valid
+
+    sp = {'outputs': outputs, 'mismatch': mismatch}
+    oa = run_variant(res, 'avx2', name, mk, sp, data, case, max_steps=20000)
+    ob = run_variant(res, 'sse', name, mk, sp, data, case, max_steps=20000)
+    if oa and ob:
+        za = [(c_, {'z': z3.If(o['ret'] == BV(0, 64), BV(1, 1), BV(0, 1))}) for c_, o in oa]
+        zb = [(c_, {'z': z3.If(o['ret'] == BV(0, 64), BV(1, 1), BV(0, 1))}) for c_, o in ob]
+        equiv(res, name, za, zb, data, case, ['z'])
+
 CHECKS = {
+    'validate_utf8_fast': (['validate_utf8_fast'], cases_utf8, run_utf8),
     'lspace': (['lspace'], cases_lspace, run_lspace),
     'vsigned': (['vsigned'], lambda r, t: cases_vint(r, t, True), lambda r, c: run_vint(r, c, True)),
     'vunsigned': (['vunsigned'], lambda r, t: cases_vint(r, t, False), lambda r, c: run_vint(r, c, False)),
